@@ -93,7 +93,7 @@ def validate_trace(ctx, cfg, trace_path, tag, deviations):
     for i, r in enumerate(rows):
         if r["op"] == "tracereset":
             start[r["trace"]] = i + 1          # 1-based line of the reset event
-    known = set((d[0], d[1]) for d in deviations)
+    known = set((d[0], d[1]) for d in (deviations or []))
     unexplained = []
     for p in t.printed:
         j = json.loads(p)
@@ -111,7 +111,7 @@ def run(ctx):
     found = []          # (sig, replay_obj) collected by the stages, reported from the main thread
 
     def collect(rj):
-        for f in rj["findings"]:
+        for f in (rj["findings"] or []):
             found.append((sig_of(f), replay_obj(f)))
 
     def unexplained_to_found(unx, level, universe):
@@ -218,7 +218,7 @@ def run(ctx):
         res = ctx.work / "random.json"
         vlib.run([drv, "random", "-seed", ctx.seed, "-n", ntr, "-len", ln, "-depth", 5, "-out", tr, "-res", res], timeout=3000, check=True)
         rj = json.loads(res.read_text())
-        for f in rj["findings"]:
+        for f in (rj["findings"] or []):
             f = dict(f, steps=[{k: s[k] for k in ("op", "a", "s", "v", "id")} for s in f["steps"]])
             found.append((sig_of(f), replay_obj(f)))
         ev, n, unx, nprinted = validate_trace(ctx, "JournalTrace.cfg", tr, "JournalTrace", rj["deviations"])
@@ -266,6 +266,6 @@ def replay(ctx, path):
     f = ctx.work / "one.ndjson"
     f.write_text(json.dumps(rp["steps"]) + "\n")
     rj, _ = drv_replay(ctx, drv, rp["level"], rp["universe"], f, "one", workers=1)
-    for fd in rj["findings"]:
+    for fd in (rj["findings"] or []):
         vlib.report(ctx, sig_of(fd), replay_obj(fd))
     print(json.dumps({"behaviours": rj["behaviours"], "clean": rj["clean"], "signatures": rj["signatures"]}))
